@@ -20,7 +20,8 @@ CODES = {1: "MarshalJSON bytes differ from the model's enc_record", 2: "the byte
          11: "escaped string differs from the model's esc_string", 12: "escaped string does not read back as sanitize(s)",
          21: "the model decoder and encoding/json disagree on accepting the text", 22: "the model decoder yields another tree than encoding/json",
          31: "bytes written by the real logger differ from one line per taken result, in order",
-         41: "results passed on by the real UniqueLogger differ from the model's first sightings"}
+         41: "results passed on by the real UniqueLogger differ from the model's first sightings",
+         51: "standard output of the live ARP logger (as the command builds it) differs from the lines of the first sightings"}
 
 KINDS = ["arp", "tcp", "icmp", "socks", "elastic", "docker"]
 
@@ -84,16 +85,26 @@ def case_term(o):
     if t == "uniq":
         return "KUniq [%s] %s [%s]" % ("; ".join(res_term(r) for r in o.get("rs") or []), verif.coq_bool(o.get("drop", False)),
                                        "; ".join(verif.coq_z(i) for i in o.get("outs") or []))
+    if t == "live":
+        return "KLive [%s] %s" % ("; ".join(res_term(r) for r in o.get("rs") or []), packed("".join(o.get("writes") or [])))
     raise verif.Broken("harness emitted an unknown case type %r" % (t,))
+
+
+CHUNK = 150   # cases per list literal: a single huge literal overflows coqc's stack
 
 
 def case_file(rows):
     body = ["From Coq Require Import ZArith List Uint63.", "From SX Require Import Base.Bytes Model.Json Spec.C14.",
-            "Import ListNotations.", "Open Scope Z_scope.", "Definition cases : list case := ["]
-    body.append(";\n".join(case_term(o) for o in rows))
-    body.append("].")
-    body.append("Definition M := Eval vm_compute in check_all 0 cases.")
-    body.append("Definition L := Eval vm_compute in length cases.")
+            "Import ListNotations.", "Open Scope Z_scope."]
+    names = []
+    for k in range(0, len(rows), CHUNK):
+        nm = "cases_%d" % (k // CHUNK)
+        names.append(nm)
+        body.append("Definition %s : list case := [" % nm)
+        body.append(";\n".join(case_term(o) for o in rows[k:k + CHUNK]))
+        body.append("].")
+    body.append("Definition M := Eval vm_compute in check_all 0 (%s)." % " ++ ".join(names or ["[]"]))
+    body.append("Definition L := Eval vm_compute in length (%s)." % " ++ ".join(names or ["[]"]))
     body.append("Print M. Print L.")
     return "\n".join(body)
 
@@ -127,6 +138,9 @@ def describe(o):
     elif o["t"] == "dec":
         d["text"] = bytes.fromhex(o.get("txt", ""))[:300].decode("utf-8", "backslashreplace")
         d["go_accepts"] = o.get("go_ok", False)
+    elif o["t"] == "live":
+        d["results"] = len(o.get("rs") or [])
+        d["stdout"] = b"".join(bytes.fromhex(x) for x in o.get("writes") or [])[:600].decode("utf-8", "backslashreplace")
     elif o["t"] == "log":
         d["results"] = len(o.get("rs") or [])
         d["stop"] = o.get("stop")
@@ -189,7 +203,7 @@ def run(ctx):
                            "(the implementation passes on another number of results than ID() predicts)", skipped[0]["gen"]))
     for o in rows:
         sample = None
-        if o["t"] in ("rec", "log", "uniq"):
+        if o["t"] in ("rec", "log", "uniq", "live"):
             sample = describe(o)
         ctx.count(key_of(o) if o["t"] != "rec" else "rec:" + KINDS[o.get("kind", 0)], o["gen"], nontrivial=bool(o.get("nontrivial")),
                   sample=sample)
